@@ -15,7 +15,7 @@ compares source text, local names or statement shapes.
 """
 import ast
 
-from sa.interp import Interp, Scenario, Sym, Const, Bytes, Enum, render, render_items, merge_consts, sl, lin_norm, lin_add
+from sa.interp import Sym, Const, Bytes, Obj, render, render_items, merge_consts, sl, lin_add
 from sa.loader import AnalysisError
 from sa.sigdata import enum_const
 from sa import families, taint
@@ -132,6 +132,48 @@ def pkesk(rep, prog):
         break
     if not seen:
         raise AnalysisError('PKESessionKeyV3.decrypt_sk: no self.ct.decrypt call on the RSA arm')
+    # the ciphertext object the packet gets for each algorithm (pkalg setter): RSA -> RSACipherText, ECDH -> ECDHCipherText
+    pc = prog.cls('pgpy.packet.packets', 'PKESessionKeyV3')
+    pp = pc.find_prop('pkalg')
+    setters = list(pp.setters.values()) if pp is not None else []
+    if not setters:
+        raise AnalysisError('PKESessionKeyV3.pkalg setter vanished')
+    fs = setters[0]
+    rep.saw(fn=fs)
+    for alg, want in (('RSAEncryptOrSign', 'RSACipherText'), ('ECDH', 'ECDHCipherText')):
+        got = set()
+        for s in run_roles(prog, fs, ('self', 'val'), args={'val': enum_const(prog, 'PubKeyAlgorithm', alg)}):
+            if s.raised:
+                continue
+            st = [(v, val) for p, v, l, val in s.stores if p == 'self.ct']
+            got.add(st[-1][1].cls.name if st and isinstance(st[-1][1], Obj) and st[-1][1].cls is not None else (st[-1][0] if st else None))
+        rep.check(got == {want}, 'C03.1', 'PKESessionKeyV3.pkalg', '%s -> %s' % (alg, sorted(map(str, got))),
+                  'a session-key packet for %s must carry a %s (the class whose encrypt/decrypt pair is checked here)' % (alg, want),
+                  where=fs.where, expected=want, found=sorted(map(str, got)), scenario=alg)
+    # RSACipherText: C = MPI(big-endian integer of encfn(m, padding)); decrypt hands the same arguments to the private operation
+    re_ = prog.method('pgpy.packet.fields', 'RSACipherText', 'encrypt')
+    rd_ = prog.method('pgpy.packet.fields', 'RSACipherText', 'decrypt')
+    rep.saw(fn=re_)
+    rep.saw(fn=rd_)
+    for s in run_roles(prog, re_, ('cls', 'encfn'), vararg=['m', 'pad']):
+        if s.raised:
+            continue
+        st = [taint.expand_objs(s, v) for p, v, l, _ in s.stores if p.endswith('.me_mod_n')]
+        c = split_args(st[0]) if len(st) == 1 else None
+        inner = split_args(c[1][0]) if c is not None and c[0] == 'MPI' and len(c[1]) == 1 else None
+        ok = inner is not None and ((inner[0].endswith('.bytes_to_int') and inner[1] == ['encfn(m, pad)']) or
+                                    (inner[0] == 'int.from_bytes' and inner[1] in (['encfn(m, pad)', "'big'"], ['encfn(m, pad)', "byteorder='big'"])))
+        r = render(s.ret)
+        rep.check(ok and st and (r + '.me_mod_n') in [p for p, v, l, _ in s.stores], 'C03.1', 'RSACipherText.encrypt', 'me_mod_n = %s' % st,
+                  'the RSA ciphertext is the big-endian integer of the public operation applied to (m, padding), returned in the new object',
+                  where=re_.where, expected='MPI(bytes_to_int(encfn(m, pad)))', found=st)
+    for s in run_roles(prog, rd_, ('self', 'decfn'), vararg=['c', 'pad']):
+        if s.raised:
+            continue
+        r = render(s.ret)
+        rep.check(r == 'decfn(c, pad)', 'C03.1', 'RSACipherText.decrypt', 'return %s' % r,
+                  'RSA decryption returns exactly what the private operation yields for (ciphertext octets, padding)', where=rd_.where,
+                  expected='decfn(c, pad)', found=r)
 
 
 # ------------------------------------------------------------------------------------------------ C03.2
@@ -170,7 +212,8 @@ def seipd(rep, prog):
         rep.check(order == ['update_hlen', 'serialise'], 'C03.2', W, 'order %s' % order,
                   'the MDC packet header must be recomputed before it is serialised', where=fi.where)
         st = [v for p, v, l, _ in s.stores if p == 'self.ct']
-        rep.check(st == [call_text(enc[0])], 'C03.2', W, 'self.ct', 'packet carries the ciphertext', where=fi.where)
+        rep.check(st == [call_text(enc[0])] and _events_order(s, lambda e: _store(e, 'self.ct'), lambda e: _call(e, 'self.update_hlen')), 'C03.2', W,
+                  'self.ct', 'packet carries the ciphertext and its header length is recomputed afterwards', where=fi.where)
     # the MDC packet serialises as d3 14 || digest: tag 0x13, new format default, 20 octets < 192 -> one length octet
     mdc = prog.cls('pgpy.packet.packets', 'MDC')
     tid = mdc.attrs.get('__typeid__')
@@ -359,6 +402,13 @@ def ecdh(rep, prog):
                     w[0][1][0] == KEK
                 rep.check(ok, 'C03.5', 'ECDHCipherText.encrypt', 'aes_key_wrap(kek, padded m)', 'C = AESKeyWrap(Z, padded m)', where=f.where,
                           scenario=scen, found=w[0][1][1] if w else None)
+                pst = [split_args(taint.expand_objs(s, v)) for p, v, l, _ in s.stores if p.endswith('.p')]
+                x25519 = any(c[0].endswith('X25519PrivateKey.generate') for c in s.calls)
+                ok = len(pst) == 1 and pst[0] is not None and pst[0][0] == 'ECPoint.from_values' and len(pst[0][1]) == (3 if x25519 else 4) and \
+                    pst[0][1][0] == 'pk.keymaterial.oid.key_size' and pst[0][1][1] == ('ECPointFormat.Native' if x25519 else 'ECPointFormat.Standard')
+                rep.check(ok, 'C03.5', 'ECDHCipherText.encrypt', 'ct.p = %s(%s)' % ((pst[0][0], ', '.join(pst[0][1][:2])) if pst and pst[0] else (None, '')),
+                          'the ephemeral point is encoded for the recipient curve: its bit length, native format for Curve25519 and the '
+                          'uncompressed standard format otherwise', where=f.where, scenario=scen, found=pst[0] if pst else None)
                 cst = [v for p, v, l, _ in s.stores if p.endswith('.c')]
                 rep.check(len(w) == 1 and cst == [call_text(w[0])], 'C03.5', 'ECDHCipherText.encrypt', 'ct.c', 'the packet carries C',
                           where=f.where, scenario=scen)
